@@ -401,7 +401,7 @@ class Recorder:
             arrs = [a for a in list(args) + list(kwargs.values()) if isinstance(a, np.ndarray)]
             pre = []
             for a in arrs:
-                alias = [i for i, c in rec.callers if c.size and a.size and np.shares_memory(a, c)]
+                alias = [i for i, c in rec.current() if c.size and a.size and np.shares_memory(a, c)]
                 pre.append((alias, a.tobytes()))
             raised = True
             try:
@@ -413,6 +413,11 @@ class Recorder:
                                    raised, False))
         shim.__name__ = name
         return shim
+
+    def current(self):
+        """caller buffers as they are now: a Grid argument is followed through `grid.dtype = ...` conversions
+        (the caller's grid holds a new array afterwards: that array is the caller's cell data from then on)"""
+        return [(i, c._data if isinstance(c, self.H.grid.Grid) else c) for i, c in self.callers]
 
     @contextlib.contextmanager
     def recording(self, callers):
@@ -429,6 +434,10 @@ def kind_token(H, obj):
     np, pd = H.np, H.pd
     if obj is None:
         return "n:other:s", None
+    if isinstance(obj, H.grid.Grid):
+        arr = obj._data
+        dt = {"float64": "f64", "float32": "f32", "int64": "i64", "int32": "i32"}.get(str(arr.dtype), "other")
+        return f"v:{dt}:{'c' if arr.flags.c_contiguous else 's'}", obj
     if isinstance(obj, np.ndarray):
         arr, view = obj, True
     elif isinstance(obj, (pd.Series, pd.DataFrame, pd.Index)):
@@ -476,8 +485,11 @@ def load(ctx):
 
 # ----------------------------------------------------------------------------------------------
 # fixtures
-def make_flowdir(H, rng, nrows=6, ncols=7, dtype=None):
-    """every cell drains towards the bottom-right corner (E, S or SE at random): acyclic, one sink"""
+def make_flowdir(H, rng, nrows=6, ncols=7, dtype=None, mode="acyclic"):
+    """every cell drains towards the bottom-right corner (E, S or SE at random): acyclic, one sink.
+    mode 'cycle': two neighbouring cells then drain into each other and four cells form a closed square (the
+    situation max_accumulated_cells / the delineation buffers exist for); mode 'invalid': some cells hold values that
+    are not flow-direction codes"""
     np = H.np
     code = H.grid.FLOWDIRCODE
     E, S, SE = int(code[1, 2]), int(code[2, 1]), int(code[2, 2])
@@ -492,6 +504,16 @@ def make_flowdir(H, rng, nrows=6, ncols=7, dtype=None):
             if c < ncols - 1 and r < nrows - 1:
                 opts.append(SE)
             fd[r, c] = rng.choice(opts) if opts else 0
+    if mode == "cycle" and nrows >= 3 and ncols >= 3:
+        W, Nn = int(code[1, 0]), int(code[0, 1])
+        r, c = rng.randrange(nrows), rng.randrange(ncols - 1)
+        fd[r, c], fd[r, c + 1] = E, W
+        if rng.random() < 0.5:
+            r, c = rng.randrange(nrows - 1), rng.randrange(ncols - 1)
+            fd[r, c], fd[r, c + 1], fd[r + 1, c + 1], fd[r + 1, c] = E, S, W, Nn
+    elif mode == "invalid":
+        for _ in range(3):
+            fd[rng.randrange(nrows), rng.randrange(ncols)] = rng.choice([7, -3, 255, 3])
     g = H.grid.Grid("flowdir", ncols, nrows, cellsize=1., xllcorner=0., yllcorner=0.,
                     dtype=dtype or np.int64, nodata=-1)
     g.data = fd
@@ -514,7 +536,7 @@ def floats(rng, n, lo=0.1, hi=10.0):
 
 # ----------------------------------------------------------------------------------------------
 # correspondence: wrappers that hand buffers to kernels
-def wrapper_cases(H, rng, kind, holes="none"):
+def wrapper_cases(H, rng, kind, holes="none", flow="acyclic"):
     """-> list of (model name, callers [objects in the model's caller-index order], thunk).
     `kind` is applied to the array-like arguments; receivers / grids are built fresh for every case."""
     np, pd, G = H.np, H.pd, H.grid
@@ -559,7 +581,8 @@ def wrapper_cases(H, rng, kind, holes="none"):
     a0, a1 = v(par), v(inn)
     out.append(("armodel_residual", [a0, a1], lambda a0=a0, a1=a1: H.armodels.armodel_residual(a0, a1, sim_mean=0.)))
     a0 = v(ens)
-    out.append(("pareto_front", [a0], lambda a0=a0: H.sutils.pareto_front(a0)))
+    ori = rng.choice([1, -1])
+    out.append(("pareto_front", [a0], lambda a0=a0: H.sutils.pareto_front(a0, orientation=ori)))
 
     # ---- grids
     gr = G.Grid("g", 7, 6, cellsize=1., xllcorner=0., yllcorner=0., dtype=np.float64)
@@ -581,12 +604,12 @@ def wrapper_cases(H, rng, kind, holes="none"):
     out.append(("slice", [a0, gr2._data], lambda a0=a0: gr2.slice(a0)))
 
     # ---- catchments
-    ca = make_catchment(H, rng, boundary=False)
+    ca = G.Catchment("ca", make_flowdir(H, rng, mode=flow))      # one-step queries: no delineation needed
     a0 = v(cells, "int")
     out.append(("upstream", [a0, ca._flowdir._data, G.FLOWDIRCODE], lambda a0=a0: ca.upstream(a0)))
     a0 = v(cells, "int")
     out.append(("downstream", [a0, ca._flowdir._data, G.FLOWDIRCODE], lambda a0=a0: ca.downstream(a0)))
-    fd = make_flowdir(H, rng)
+    fd = make_flowdir(H, rng, mode=flow)
     cb = G.Catchment("cb", fd)
     outlet = fd.nrows * fd.ncols - 1
     a0 = v(np.array([0, 1]), "int")
@@ -618,19 +641,18 @@ def wrapper_cases(H, rng, kind, holes="none"):
     gd = {"c64": (np.int64, np.float64), "flt": (np.float64, np.float32), "i64": (np.int64, np.int64),
           "i32": (np.int32, np.int32)}.get(kind)
     if gd is not None:
-        f1 = make_flowdir(H, rng, dtype=gd[0])
-        out.append(("delineate_river", [f1._data, G.FLOWDIRCODE], lambda: G.delineate_river(f1, 0, nval=50)))
-        f2 = make_flowdir(H, rng, dtype=gd[0])
+        f1 = make_flowdir(H, rng, dtype=gd[0], mode=flow)
+        out.append(("delineate_river", [f1, G.FLOWDIRCODE], lambda: G.delineate_river(f1, 0, nval=50)))
+        f2 = make_flowdir(H, rng, dtype=gd[0], mode=flow)
         ta = G.Grid("ta", f2.ncols, f2.nrows, dtype=gd[1], nodata=-9)
         ta.data = np.round(np.array(floats(rng, f2.nrows * f2.ncols))).reshape(f2.nrows, f2.ncols)
-        out.append(("accumulate", [f2._data, ta._data, G.FLOWDIRCODE],
-                    lambda: G.accumulate(f2, ta, nprint=10 ** 9)))
-        f3 = make_flowdir(H, rng, dtype=gd[0])
-        out.append(("accumulate_default", [f3._data, None, G.FLOWDIRCODE], lambda: G.accumulate(f3, nprint=10 ** 9)))
-        f4 = make_flowdir(H, rng, dtype=gd[0])
+        out.append(("accumulate", [f2, ta, G.FLOWDIRCODE], lambda: G.accumulate(f2, ta, nprint=10 ** 9)))
+        f3 = make_flowdir(H, rng, dtype=gd[0], mode=flow)
+        out.append(("accumulate_default", [f3, None, G.FLOWDIRCODE], lambda: G.accumulate(f3, nprint=10 ** 9)))
+        f4 = make_flowdir(H, rng, dtype=gd[0], mode=flow)
         alt = G.Grid("alt", f4.ncols, f4.nrows, dtype=gd[1], nodata=-9)
         alt.data = np.round(np.array(floats(rng, f4.nrows * f4.ncols, 0, 500))).reshape(f4.nrows, f4.ncols)
-        out.append(("slope", [f4._data, alt._data, G.FLOWDIRCODE], lambda: G.slope(f4, alt, nprint=10 ** 9)))
+        out.append(("slope", [f4, alt, G.FLOWDIRCODE], lambda: G.slope(f4, alt, nprint=10 ** 9)))
     cv = make_catchment(H, rng, boundary=False)
     pts = np.array([[rng.uniform(0, 7), rng.uniform(0, 6)] for _ in range(rng.randint(2, 5))])
     a0 = v(pts)
@@ -656,15 +678,20 @@ def correspondence(ctx, H, rec):
     canonical_rejected = {}
     for rep in range(ctx.scale(6, 60)):
         holes = ("none", "nan", "naninf")[rep % 3]
+        flow = ("acyclic", "cycle", "invalid")[(rep + rep // 3) % 3]
         for kind in KINDS:
-            for name, callers, thunk in wrapper_cases(H, rng, kind, holes):
+            for name, callers, thunk in wrapper_cases(H, rng, kind, holes, flow):
                 toks, bufs = [], []
                 for c in callers:
                     t, b = kind_token(H, c)
                     toks.append(t)
                     bufs.append(b)
                 toks += ["n:other:s"] * (10 - len(toks))
-                snaps = [None if b is None else b.tobytes() for b in bufs]
+                def bsnap(b):
+                    if b is None:
+                        return None
+                    return ("cells", b._data.shape, b._data.ravel().tolist()) if isinstance(b, H.grid.Grid) else b.tobytes()
+                snaps = [bsnap(b) for b in bufs]
                 err = None
                 with rec.recording(bufs), warnings.catch_warnings(), quiet_stdout():
                     warnings.simplefilter("ignore")
@@ -673,9 +700,10 @@ def correspondence(ctx, H, rec):
                     except Exception as e:     # noqa: a kind may be rejected
                         err = f"{type(e).__name__}: {str(e)[:80]}"
                 events = list(rec.events)
-                changed = [i for i, (b, s) in enumerate(zip(bufs, snaps)) if b is not None and b.tobytes() != s]
+                changed = [i for i, (b, s) in enumerate(zip(bufs, snaps)) if b is not None and (
+                    not cells_equal(bsnap(b)[2], s[2]) if isinstance(b, H.grid.Grid) else b.tobytes() != s)]
                 rows.append((name, kind, toks, events, err, changed))
-                if kind == "c64" and holes == "none" and err is not None:
+                if kind == "c64" and holes == "none" and flow == "acyclic" and err is not None:
                     canonical_rejected[name] = err
                 case_holes.append(holes)
     replies = ctx.lean.ask([f"run {name} [{','.join(toks)}]" for name, _k, toks, _e, _r, _c in rows])
@@ -746,9 +774,11 @@ def correspondence(ctx, H, rec):
 # ----------------------------------------------------------------------------------------------
 # oracle: every public function of the quantifier
 class Entry:
-    def __init__(self, name, fn, gen, canonical="c64", optional=False):
+    def __init__(self, name, fn, gen, canonical="c64", optional=False, options=None):
         # optional: the function is allowed to reject every case (a variant outside what it documents)
+        # options: documented keyword options -> values to exercise (first = the default, used in the canonical case)
         self.name, self.fn, self.gen, self.canonical, self.optional = name, fn, gen, canonical, optional
+        self.options = options or {}
 
 
 def build_entries(H):
@@ -756,8 +786,8 @@ def build_entries(H):
     M, S, A, T, D, Q, SG = H.metrics, H.sutils, H.armodels, H.transform, H.dutils, H.qualitycontrol, H.signatures
     E = []
 
-    def add(name, fn, gen, canonical="c64", optional=False):
-        E.append(Entry(name, fn, gen, canonical, optional))
+    def add(name, fn, gen, canonical="c64", optional=False, options=None):
+        E.append(Entry(name, fn, gen, canonical, optional, options))
 
     def N(n):
         """series length: beyond the internal thresholds of the library in the `big` cases (same offset for every
@@ -796,17 +826,20 @@ def build_entries(H):
         return [Arg("obs", holes(rng, vec(rng, n))), Arg("sim", holes(rng, vec(rng, n)))]
 
     # ---------------- metrics
-    add("metrics.pit", lambda obs, ens: M.pit(obs, ens), obs_ens)
-    add("metrics.pit/random", lambda obs, ens: M.pit(obs, ens, random=True), obs_ens)
+    add("metrics.pit", lambda obs, ens, **o: M.pit(obs, ens, **o), obs_ens,
+        options={"kind": ["rank", "weak", "strict", "mean"], "cst": [0.3, 0., 0.5], "censor": [0., 2.]})
+    add("metrics.pit/random", lambda obs, ens, **o: M.pit(obs, ens, random=True, **o), obs_ens,
+        options={"cst": [0.3, 0.], "censor": [0., 2.]})
     add("metrics.crps", lambda obs, ens: M.crps(obs, ens), obs_ens)
     add("metrics.anderson_darling_test", lambda unifdata: M.anderson_darling_test(unifdata),
         lambda rng: [Arg("unifdata", vec(rng, None, 0.01, 0.99))])
     add("metrics.cramer_von_mises_test", lambda data: M.cramer_von_mises_test(data),
         lambda rng: [Arg("data", vec(rng, None, 0.01, 0.99))])
     for tp in ("CV", "KS", "AD"):
-        add(f"metrics.alpha/{tp}", lambda obs, ens, tp=tp: M.alpha(obs, ens, type=tp), obs_ens)
-    add("metrics.iqr", lambda ens, ref: M.iqr(ens, ref),
-        lambda rng: [Arg("ens", mat(rng, 8, 5)), Arg("ref", mat(rng, 8, 6))])
+        add(f"metrics.alpha/{tp}", lambda obs, ens, tp=tp, **o: M.alpha(obs, ens, type=tp, **o), obs_ens,
+            options={"cst": [0.3, 0.], "sudo_perc_threshold": [5, 60]})
+    add("metrics.iqr", lambda ens, ref, **o: M.iqr(ens, ref, **o),
+        lambda rng: [Arg("ens", mat(rng, 8, 5)), Arg("ref", mat(rng, 8, 6))], options={"coverage": [50., 90.]})
     trs = [lambda: T.Identity(), lambda: T.Log(), lambda: T.BoxCox2()]
 
     def with_trans(rng, args):
@@ -817,21 +850,21 @@ def build_entries(H):
             tr.nu = 0.1
         return args + [Arg("trans", tr, "fixed")]
     for ex in (False, True):
-        add(f"metrics.bias/excludenull={ex}", lambda obs, sim, trans, ex=ex: M.bias(obs, sim, trans, excludenull=ex),
-            lambda rng: with_trans(rng, obs_sim(rng)))
+        add(f"metrics.bias/excludenull={ex}", lambda obs, sim, trans, ex=ex, **o: M.bias(obs, sim, trans, excludenull=ex, **o),
+            lambda rng: with_trans(rng, obs_sim(rng)), options={"type": ["standard", "normalised", "log"]})
         add(f"metrics.nse/excludenull={ex}", lambda obs, sim, trans, ex=ex: M.nse(obs, sim, trans, excludenull=ex),
             lambda rng: with_trans(rng, obs_sim(rng)))
         add(f"metrics.kge/excludenull={ex}", lambda obs, sim, trans, ex=ex: M.kge(obs, sim, trans, excludenull=ex),
             lambda rng: with_trans(rng, obs_sim(rng)))
-    add("metrics.dscore/ensemble", lambda obs, sim: M.dscore(obs, sim),
-        lambda rng: [Arg("obs", vec(rng, 10)), Arg("sim", mat(rng, 10, 4))])
+    add("metrics.dscore/ensemble", lambda obs, sim, **o: M.dscore(obs, sim, **o),
+        lambda rng: [Arg("obs", vec(rng, 10)), Arg("sim", mat(rng, 10, 4))], options={"eps": [1e-6, 0.5]})
     add("metrics.dscore/deterministic", lambda obs, sim: M.dscore(obs, sim),
         lambda rng: [Arg("obs", vec(rng, 10)), Arg("sim", mat(rng, 10, 1))])
     for st in ("median", "mean"):
         for ty in ("Pearson", "Spearman", "censored"):
             add(f"metrics.corr/{st}/{ty}",
-                lambda obs, ens, trans, st=st, ty=ty: M.corr(obs, ens, trans, stat=st, type=ty),
-                lambda rng: with_trans(rng, obs_ens(rng)))
+                lambda obs, ens, trans, st=st, ty=ty, **o: M.corr(obs, ens, trans, stat=st, type=ty, **o),
+                lambda rng: with_trans(rng, obs_ens(rng)), options={"excludenull": [False, True], "censor": [1e-10, 2.]})
     add("metrics.absolute_peak_error",
         lambda obs, sim: M.absolute_peak_error(obs, sim, **({} if H.big else dict(winerase=6, winpeakbefore=2,
                                                                                  winpeakafter=3, neventmax=3))),
@@ -855,7 +888,8 @@ def build_entries(H):
     # ---------------- sutils
     add("sutils.ppos", lambda nval, cst: S.ppos(nval, cst),
         lambda rng: [Arg("nval", rng.randint(2, 30), "fixed"), Arg("cst", rng.choice([0., 0.3, 0.5]), "fixed")], "fixed")
-    add("sutils.acf", lambda data: S.acf(data, maxlag=3), lambda rng: [Arg("data", holes(rng, vec(rng, 25)))])
+    add("sutils.acf", lambda data, **o: S.acf(data, **o), lambda rng: [Arg("data", holes(rng, vec(rng, 25)))],
+        options={"maxlag": [1, 3, 5]})
     add("sutils.acf/idx", lambda data, idx: S.acf(data, maxlag=2, idx=idx),
         lambda rng: [Arg("data", vec(rng, 25)), Arg("idx", np.array([rng.random() < 0.8 for _ in range(25)]), "fixed")])
     add("sutils.lhs", lambda pmin, pmax: S.lhs(12, pmin, pmax),
@@ -863,19 +897,23 @@ def build_entries(H):
     add("sutils.lhs_norm", lambda mean, cov: S.lhs_norm(12, mean, cov),
         lambda rng: [Arg("mean", vec(rng, 3)), Arg("cov", np.diag(floats(rng, 3, 1, 2)) + 0.1)])
     for srt in (False, True):
-        add(f"sutils.standard_normal/sorted={srt}", lambda x, srt=srt: S.standard_normal(x, sorted=srt),
-            lambda rng: [Arg("x", vec(rng))])
+        add(f"sutils.standard_normal/sorted={srt}", lambda x, srt=srt, **o: S.standard_normal(x, sorted=srt, **o),
+            lambda rng: [Arg("x", vec(rng))], options={"cst": [0., 0.3], "rank_method": ["average", "min", "first"]})
     add("sutils.semicorr", lambda unorm: S.semicorr(unorm), lambda rng: [Arg("unorm", mat(rng, 30, 2, -2, 2))])
-    add("sutils.pareto_front", lambda data: S.pareto_front(data), lambda rng: [Arg("data", mat(rng, 12, 3))])
+    add("sutils.pareto_front", lambda data, **o: S.pareto_front(data, **o), lambda rng: [Arg("data", mat(rng, 12, 3))],
+        options={"orientation": [1, -1]})
     for ai in (False, True):
-        add(f"sutils.lstsq/add_intercept={ai}", lambda X, y, ai=ai: S.lstsq(X, y, add_intercept=ai),
-            lambda rng: [Arg("X", holes(rng, mat(rng, 20, 2, -2, 2))), Arg("y", holes(rng, vec(rng, 20, -2, 2)))])
+        add(f"sutils.lstsq/add_intercept={ai}", lambda X, y, ai=ai, **o: S.lstsq(X, y, add_intercept=ai, **o),
+            lambda rng: [Arg("X", holes(rng, mat(rng, 20, 2, -2, 2))), Arg("y", holes(rng, vec(rng, 20, -2, 2)))],
+            options={"rcond": [1e-4, 1e-10]})
 
     # ---------------- armodels
-    add("armodels.armodel_sim", lambda params, innov: A.armodel_sim(params, innov, sim_mean=0.3),
-        lambda rng: [Arg("params", np.array([0.6, 0.2][:rng.randint(1, 2)])), Arg("innov", vec(rng, None, -1, 1))])
-    add("armodels.armodel_residual", lambda params, inputs: A.armodel_residual(params, inputs),
-        lambda rng: [Arg("params", np.array([0.6, 0.2][:rng.randint(1, 2)])), Arg("inputs", vec(rng, None, -1, 1))])
+    add("armodels.armodel_sim", lambda params, innov, **o: A.armodel_sim(params, innov, **o),
+        lambda rng: [Arg("params", np.array([0.6, 0.2][:rng.randint(1, 2)])), Arg("innov", vec(rng, None, -1, 1))],
+        options={"sim_mean": [0., 0.3], "sim_ini": [None, 1.5]})
+    add("armodels.armodel_residual", lambda params, inputs, **o: A.armodel_residual(params, inputs, **o),
+        lambda rng: [Arg("params", np.array([0.6, 0.2][:rng.randint(1, 2)])), Arg("inputs", vec(rng, None, -1, 1))],
+        options={"sim_mean": [None, 0.3], "sim_ini": [None, 1.5]})
     add("armodels.yule_walker", lambda acf: A.yule_walker(acf), lambda rng: [Arg("acf", np.array([0.7, 0.4, 0.2]))])
 
     # ---------------- transforms: every class x forward / backward / jacobian / backward_censored
@@ -921,21 +959,25 @@ def build_entries(H):
         n = rng.randint(8, 20)
         return [Arg("aggindex", np.repeat(np.arange(3, N(n)), 3)[:N(n)], "int"), Arg("inputs", vec(rng, n))]
     for op in range(4):
-        add(f"dutils.aggregate/op={op}", lambda aggindex, inputs, op=op: D.aggregate(aggindex, inputs, operator=op), agg_args)
-    add("dutils.flathomogen", lambda aggindex, inputs: D.flathomogen(aggindex, inputs), agg_args)
+        add(f"dutils.aggregate/op={op}", lambda aggindex, inputs, op=op, **o: D.aggregate(aggindex, inputs, operator=op, **o), agg_args,
+            options={"maxnan": [0, 1, 5]})
+    add("dutils.flathomogen", lambda aggindex, inputs, **o: D.flathomogen(aggindex, inputs, **o), agg_args,
+        options={"maxnan": [0, 1, 5]})
     for lg in (-2, 0, 3):
-        add(f"dutils.lag/{lg}", lambda data, lg=lg: D.lag(data, lg), lambda rng: [Arg("data", vec(rng))])
+        add(f"dutils.lag/{lg}", lambda data, lg=lg, **o: D.lag(data, lg, **o), lambda rng: [Arg("data", vec(rng))],
+            options={"missing": [np.nan, -9.]})
     add("dutils.lag/2d", lambda data: D.lag(data, 1), lambda rng: [Arg("data", mat(rng, 8, 3))])
 
     def daily(rng, n=800):
         return pd.Series(np.array(floats(rng, n)), index=pd.date_range("2001-01-01", periods=n))
-    add("dutils.water_year_end", lambda x: D.water_year_end(x), lambda rng: [Arg("x", daily(rng), "fixed")], "fixed")
+    add("dutils.water_year_end", lambda x, **o: D.water_year_end(x, **o), lambda rng: [Arg("x", daily(rng), "fixed")], "fixed",
+        options={"convolve_window": [3, 5]})
 
     def monthly(rng):
         return pd.Series(holes(rng, floats(rng, 14)), index=pd.date_range("2001-01-01", periods=14, freq="MS"))
     for ip in ("flat", "cubic"):
-        add(f"dutils.monthly2daily/{ip}", lambda se, ip=ip: D.monthly2daily(se, interpolation=ip),
-            lambda rng: [Arg("se", monthly(rng), "fixed")], "fixed")
+        add(f"dutils.monthly2daily/{ip}", lambda se, ip=ip, **o: D.monthly2daily(se, interpolation=ip, **o),
+            lambda rng: [Arg("se", monthly(rng), "fixed")], "fixed", options={"minthreshold": [0., 1.]})
 
     def irregular(rng):
         n = 30
@@ -943,18 +985,23 @@ def build_entries(H):
         stamps = t0 + np.cumsum(np.array([rng.randint(600, 4000) for _ in range(n)])).astype("timedelta64[s]")
         return pd.Series(np.array(floats(rng, n)), index=pd.DatetimeIndex(stamps.astype("datetime64[ns]")))
     for rain in (False, True):
-        add(f"dutils.var2h/rainfall={rain}", lambda se, rain=rain: D.var2h(se, rainfall=rain),
-            lambda rng: [Arg("se", irregular(rng), "fixed")], "fixed")
+        add(f"dutils.var2h/rainfall={rain}", lambda se, rain=rain, **o: D.var2h(se, rainfall=rain, **o),
+            lambda rng: [Arg("se", irregular(rng), "fixed")], "fixed",
+            options={"nbsec_per_period": [3600, 1800], "maxgapsec": [5 * 86400, 3600]})
     add("dutils.oz_timezone", lambda: D.oz_timezone(147.3, -35.2), lambda rng: [], "fixed")
 
     # ---------------- qualitycontrol / signatures
-    add("qualitycontrol.ismisscens", lambda x: Q.ismisscens(x, censor=1.),
+    add("qualitycontrol.ismisscens", lambda x, **o: Q.ismisscens(x, **o), options={"censor": [1., 0.], "eps": [1e-10, 0.5]},
+        gen=
         lambda rng: [Arg("x", np.where(np.arange(N(15)) % 4 == 0, np.nan, vec(rng, 15, 0, 3)))])
     add("qualitycontrol.ismisscens/2d", lambda x: Q.ismisscens(x, censor=1.), lambda rng: [Arg("x", mat(rng, 8, 2, 0, 3))])
-    add("qualitycontrol.islinear", lambda data: Q.islinear(data),
+    add("qualitycontrol.islinear", lambda data, **o: Q.islinear(data, **o),
+        options={"npoints": [3, 1, 2], "tol": [1e-6, 0.5], "thresh": [0., 3.]}, gen=
         lambda rng: [Arg("data", np.concatenate([np.arange(6.), vec(rng, 6), np.ones(5)]))])
-    add("signatures.eckhardt", lambda flow: SG.eckhardt(flow), lambda rng: [Arg("flow", vec(rng, 30))])
-    add("signatures.fdcslope", lambda x: SG.fdcslope(x, q1=50, q2=90), lambda rng: [Arg("x", holes(rng, vec(rng, 40)))])
+    add("signatures.eckhardt", lambda flow, **o: SG.eckhardt(flow, **o), lambda rng: [Arg("flow", vec(rng, 30))],
+        options={"thresh": [0.95, 0.5], "tau": [20, 100], "BFI_max": [0.8, 0.3], "timestep_type": [1, 0]})
+    add("signatures.fdcslope", lambda x, **o: SG.fdcslope(x, **o), lambda rng: [Arg("x", holes(rng, vec(rng, 40)))],
+        options={"q1": [50, 10], "q2": [90, 100], "cst": [0.375, 0.]})
     add("signatures.goue", lambda aggindex, values: SG.goue(aggindex, values),
         lambda rng: [Arg("aggindex", np.repeat(np.arange(3, N(40)), 4)[:N(40)], "int"), Arg("values", vec(rng, 40))])
 
@@ -1003,8 +1050,34 @@ def build_entries(H):
         lambda rng: [Arg("self", fgrid(rng, rng.choice(gtypes)), "fixed")], "fixed")
     add("Grid.to_dict", lambda self: self.to_dict(),
         lambda rng: [Arg("self", fgrid(rng, rng.choice(gtypes)), "fixed")], "fixed")
-    add("Grid.apply", lambda self: self.apply(np.sqrt),
+    # user callbacks: pure ones and ones that work in place on the array they are given and return it (legitimate with
+    # Grid.apply, which documents that the function receives the grid data and its output becomes the new grid)
+    def cb_floor(z):
+        z[z < 20] = 0
+        return z
+
+    def cb_shift(z, value):
+        z += value
+        return z
+
+    def cb_nan(z):
+        return np.nan_to_num(z, copy=False, nan=-1.)
+
+    def cb_sort(z):
+        z.sort(axis=1)
+        return z
+    add("Grid.apply/pure", lambda self: self.apply(np.sqrt),
         lambda rng: [Arg("self", fgrid(rng, rng.choice([np.float64, np.float32])), "fixed")], "fixed")
+    add("Grid.apply/pure_args", lambda self: self.apply(np.clip, 5, a_max=30),
+        lambda rng: [Arg("self", fgrid(rng, rng.choice(gtypes)), "fixed")], "fixed")
+    add("Grid.apply/inplace_mask", lambda self: self.apply(cb_floor),
+        lambda rng: [Arg("self", fgrid(rng, rng.choice(gtypes)), "fixed")], "fixed")
+    add("Grid.apply/inplace_add", lambda self, value: self.apply(cb_shift, value),
+        lambda rng: [Arg("self", fgrid(rng, rng.choice(gtypes)), "fixed"), Arg("value", rng.randint(1, 9), "fixed")], "fixed")
+    add("Grid.apply/inplace_nan_to_num", lambda self: self.apply(cb_nan),
+        lambda rng: [Arg("self", fgrid(rng, rng.choice([np.float64, np.float32])), "fixed")], "fixed")
+    add("Grid.apply/inplace_sort", lambda self: self.apply(cb_sort),
+        lambda rng: [Arg("self", fgrid(rng, rng.choice(gtypes)), "fixed")], "fixed")
     add("Grid.same_geometry", lambda self, grd: self.same_geometry(grd),
         lambda rng: [Arg("self", fgrid(rng), "fixed"), Arg("grd", fgrid(rng, np.int32), "fixed")], "fixed")
 
@@ -1017,7 +1090,8 @@ def build_entries(H):
             lambda rng: [Arg("self", fgrid(rng, rng.choice(gtypes)), "fixed"),
                          Arg("grid", coarse(rng, rng.choice(gtypes)), "fixed")], "fixed")
     poly = np.array([[1., 1.], [5., 1.2], [5.5, 4.5], [2., 5.], [1., 1.]])
-    add("Grid.cells_inside_polygon", lambda self, polygon: self.cells_inside_polygon(polygon),
+    add("Grid.cells_inside_polygon", lambda self, polygon, **o: self.cells_inside_polygon(polygon, **o),
+        options={"atol": [1e-8, 0.1]}, gen=
         lambda rng: [Arg("self", fgrid(rng, rng.choice(gtypes)), "fixed"), Arg("polygon", poly + rng.uniform(0, 0.3))])
 
     def plotted(f):
@@ -1037,12 +1111,12 @@ def build_entries(H):
     def catch(rng, boundary=True):
         return make_catchment(H, rng, boundary=boundary, flowdir=make_flowdir(H, rng, *gshape(), dtype=np.int64))
     add("Catchment.upstream", lambda self, idxdown: self.upstream(idxdown),
-        lambda rng: [Arg("self", catch(rng), "fixed"), Arg("idxdown", gcells(rng), "int")])
+        lambda rng: [Arg("self", rawcatch(rng), "fixed"), Arg("idxdown", gcells(rng), "int")])
     add("Catchment.downstream", lambda self, idxup: self.downstream(idxup),
-        lambda rng: [Arg("self", catch(rng), "fixed"), Arg("idxup", gcells(rng), "int")])
+        lambda rng: [Arg("self", rawcatch(rng), "fixed"), Arg("idxup", gcells(rng), "int")])
     # mutators of their receiver: the receiver is rebuilt, the ARGUMENTS are what must stay untouched
     add("Catchment.delineate_area", lambda flowdir, idxinlets: _delin(G, flowdir, idxinlets),
-        lambda rng: [Arg("flowdir", make_flowdir(H, rng), "fixed"), Arg("idxinlets", np.array([0, 8]), "int")])
+        lambda rng: [Arg("flowdir", make_flowdir(H, rng, mode=fmode(rng)), "fixed"), Arg("idxinlets", np.array([0, 8]), "int")])
     add("Catchment.delineate_boundary", lambda self, mask: _bound(self, mask),
         lambda rng: _mask_args(H, rng, catch(rng, False)))
     add("Catchment.compute_flowpathlengths", lambda self: _fpl(self),
@@ -1067,8 +1141,16 @@ def build_entries(H):
         lambda rng: [Arg("self", catch(rng), "fixed")], "fixed")
 
     # ---------------- grid-level functions (grid arguments of every dtype: cell values must be kept)
+    def fmode(rng):
+        """flow-direction grids: acyclic in the canonical case, then also circular paths and values that are no codes"""
+        return rng.choice(["acyclic", "cycle", "cycle", "invalid"]) if H.varied or H.big else "acyclic"
+
     def fdir(rng):
-        return make_flowdir(H, rng, *gshape(), dtype=rng.choice([np.int64, np.int32, np.float64]))
+        return make_flowdir(H, rng, *gshape(), dtype=rng.choice([np.int64, np.int32, np.float64]), mode=fmode(rng))
+
+    def rawcatch(rng):
+        """a catchment whose area is not delineated (one-step queries work on any flow-direction grid)"""
+        return G.Catchment("raw", make_flowdir(H, rng, *gshape(), mode=fmode(rng)))
     add("grid.delineate_river", lambda flowdir: G.delineate_river(flowdir, 0, **opt(dict(nval=60), {})),
         lambda rng: [Arg("flowdir", fdir(rng), "fixed")], "fixed")
     add("grid.accumulate", lambda flowdir, to_accumulate: G.accumulate(flowdir, to_accumulate, **opt(dict(nprint=10 ** 9), {})),
@@ -1094,7 +1176,8 @@ def build_entries(H):
                      Arg("mask", smask(rng), "fixed")], "fixed")
 
     # ---------------- gutils
-    add("gutils.points_inside_polygon", lambda points, polygon: H.gutils.points_inside_polygon(points, polygon),
+    add("gutils.points_inside_polygon", lambda points, polygon, **o: H.gutils.points_inside_polygon(points, polygon, **o),
+        options={"atol": [1e-8, 0.1]}, gen=
         lambda rng: [Arg("points", gxy(rng)), Arg("polygon", poly + rng.uniform(0, 0.3))])
 
     # ---------------- plots
@@ -1109,30 +1192,34 @@ def build_entries(H):
             return b.stats
         finally:
             plt.close(fig)
-    add("boxplot.Boxplot", lambda data: bp(data), lambda rng: [Arg("data", holes(rng, mat(rng, 25, 3)))])
+    add("boxplot.Boxplot", lambda data, **o: bp(data, **o), lambda rng: [Arg("data", holes(rng, mat(rng, 25, 3)))],
+        options={"style": ["default", "narrow"], "show_mean": [False, True], "show_text": [False, True],
+                 "width_from_count": [False, True], "box_coverage": [50., 80.], "whiskers_coverage": [90., 95.]})
     add("boxplot.Boxplot/1d", lambda data: bp(data, show_text=True, show_mean=True), lambda rng: [Arg("data", vec(rng, 25))])
     add("boxplot.Boxplot/by", lambda data, by: bp(data, by=by),
         lambda rng: [Arg("data", pd.Series(vec(rng, 30)), "fixed"),
                      Arg("by", pd.Series(np.array([rng.randrange(3) for _ in range(30)])), "fixed")], "fixed")
 
-    def vp(data):
+    def vp(data, **kw):
         fig, ax = plt.subplots()
         try:
-            vl = H.violinplot.Violin(data)          # library defaults: npoints_kde, nresample_kde=500
+            vl = H.violinplot.Violin(data, **kw)    # library defaults: npoints_kde, nresample_kde=500
             vl.draw(ax=ax)
             return (vl.stats, vl.kde_x, vl.kde_y)
         finally:
             plt.close(fig)
-    add("violinplot.Violin", lambda data: vp(data), lambda rng: [Arg("data", holes(rng, mat(rng, 25, 2)))])
+    add("violinplot.Violin", lambda data, **o: vp(data, **o), lambda rng: [Arg("data", holes(rng, mat(rng, 25, 2)))],
+        options={"show_text": [True, False]})
     add("putils.kde", lambda xy: H.putils.kde(xy, ngrid=opt(8, 50)), lambda rng: [Arg("xy", mat(rng, 25, 2, -2, 2))])
     add("putils.kde/ties", lambda xy: H.putils.kde(xy, ngrid=8),
         lambda rng: [Arg("xy", np.round(mat(rng, 25, 2, -2, 2)))])
     add("putils.kde/eps=0", lambda xy: H.putils.kde(xy, ngrid=8, eps=0.), lambda rng: [Arg("xy", mat(rng, 25, 2, -2, 2))])
-    add("putils.ecdfplot", plotted(lambda ax, df: H.putils.ecdfplot(ax, df, label_stat="mean")),
-        lambda rng: [Arg("df", holes(rng, mat(rng, 20, 3)))], "pandas")
+    add("putils.ecdfplot", plotted(lambda ax, df, **o: H.putils.ecdfplot(ax, df, **o)),
+        lambda rng: [Arg("df", holes(rng, mat(rng, 20, 3)))], "pandas",
+        options={"label_stat": ["mean", None, "median"], "cst": [0., 0.3]})
     for al in (False, True):
-        add(f"putils.qqplot/addline={al}", plotted(lambda ax, data, al=al: H.putils.qqplot(ax, data, addline=al)),
-            lambda rng: [Arg("data", holes(rng, vec(rng, 25)))])
+        add(f"putils.qqplot/addline={al}", plotted(lambda ax, data, al=al, **o: H.putils.qqplot(ax, data, addline=al, **o)),
+            lambda rng: [Arg("data", holes(rng, vec(rng, 25)))], options={"censor": [None, 3.]})
     return E
 
 
@@ -1179,7 +1266,7 @@ def oracle(ctx, H, rec):
         probe = ent.gen(rng)
         data_args = [a.name for a in probe if a.nature in ("float", "int")]
         if not data_args:
-            plans = [("fixed", {})] * ctx.scale(4, 40) + [("fixed/big", {})] * ctx.scale(1, 4)
+            plans = [("fixed", {})] * ctx.scale(8, 40) + [("fixed/big", {})] * ctx.scale(2, 6)
         else:
             for k in KINDS:
                 plans.append((k, {n: k for n in data_args}))
@@ -1217,6 +1304,13 @@ def oracle(ctx, H, rec):
                 kinds_used[a.name] = k
             if hmode != "none":
                 kinds_used["holes"] = hmode
+            # documented options: defaults in the canonical case, then every listed value in turn / at random
+            optvals = {}
+            for j, (k, vals) in enumerate(sorted(ent.options.items())):
+                optvals[k] = vals[0] if iplan == 0 else (vals[iplan % len(vals)] if j == iplan % len(ent.options)
+                                                        else rng.choice(vals))
+            if optvals:
+                kinds_used["options"] = repr(optvals)
             seed = rng.randrange(2 ** 31)
             before = {n: sn.snap(o) for n, o in kw.items() if n not in unsnapped}
             results, errs = [], []
@@ -1227,7 +1321,7 @@ def oracle(ctx, H, rec):
                 with warnings.catch_warnings(), quiet_stdout():
                     warnings.simplefilter("ignore")
                     try:
-                        results.append(ent.fn(**kw))
+                        results.append(ent.fn(**kw, **optvals))
                         errs.append(None)
                     except Exception as e:        # noqa: a kind may be rejected, provided nothing changed
                         results.append(None)
@@ -1278,7 +1372,7 @@ def oracle(ctx, H, rec):
                 with warnings.catch_warnings(), quiet_stdout():
                     warnings.simplefilter("ignore")
                     try:
-                        r3 = ent.fn(**kw3)
+                        r3 = ent.fn(**kw3, **optvals)
                     except Exception:      # noqa
                         r3 = None
                 stats["calls"] += 1
